@@ -825,6 +825,22 @@ func init() {
 			}
 			return nil
 		},
+		// maps.clone is implemented in the runtime (go:linkname): a shallow copy
+		"maps.clone": func(fr *frame, a []value) value {
+			in := a[0].(iface)
+			src, _ := in.v.(*hashmap)
+			if src == nil {
+				return in
+			}
+			if fr.i.race != nil {
+				fr.i.raceMap(fr, src, false, token.NoPos)
+			}
+			dst := makeMap(src.keyType, 0).(*hashmap)
+			for _, e := range src.live() {
+				dst.insert(e.key, e.value)
+			}
+			return iface{t: in.t, v: dst}
+		},
 		"(*sync.Map).Clear": func(fr *frame, a []value) value {
 			delete(fr.i.syncMaps, a[0].(*value))
 			return nil
